@@ -8,6 +8,20 @@ NOTE = ("Trusted base: go/packages, go/types, go/ssa, go/cfg of x/tools v0.29.0 
         "the behavioural remainder of the property is listed per property in DESIGN.md section 4 and in the evidence under coverage.explanation.")
 
 CLAIMED = {
+ "C04": ("integer-partition dataflow on b.N over the writer's CFG combined with operand provenance (one verdict per N in 3..12); backward data slices of the parser's field stores; call-graph reachability to encoding/csv",
+         "Exact decision per N that the enabled writes produce the first N fields with N-1 TABs and one newline, refusal outside 3..12 before any write, parser column = writer column for all 12 fields, no quoting layer, whole lines. Does not decide value equality of the round trip.", "4/C04"),
+ "C11": ("linear-inequality prover over SSA with dominating branch facts, predicate summaries and inductive bounds (index/slice/make goals); finite-domain discharge of reachable panics; error-class dataflow for every error-returning call; call-graph reachability",
+         "Every constant, sentinel-based or length-bounded index/slice/make reachable from a decoder is proven in bounds or listed as not covered; every reachable explicit panic is discharged; no error is dropped; no int-to-string conversion; bad SAM line = one error item, then continue; fixed-point structure of tags/quoting shared with C03-C05. Does not decide termination or panics behind indices listed as not covered.", "4/C11"),
+ "C15": ("points-to/effect analysis for the observers; partition dataflow on the pruned node's map length; structural rules for key enumeration and the JSON mirror; yield discipline",
+         "Exact decisions that observers never write the trie, the not-found path of Delete writes nothing, pruning continues only past empty ancestors, every child key is enumerated, the JSON mirror carries the node's map unchanged. Does not decide the set model or exactly-once enumeration under histories.", "4/C15"),
+ "C16": ("dominating-fact search for start < end at every event append; linear-inequality prover for all index sites; points-to freshness/purity of At; who-may-write of the index; comparator arithmetic scan; search-shape rules",
+         "Exact decisions that only non-empty intervals enter the sweep, all index expressions are in bounds (length mismatch panics), At returns fresh memory and never writes the index, the event order uses comparisons only (position, ends before starts), keys are sorted. Does not decide exactness of the sweep as a whole.", "4/C16"),
+ "C17": ("CFG must-pass-through typestate of the hasher (Reset, Write(k-mer), Sum64, Push) and of Sort on exit; provenance of the iterator arguments; the C12 rules for CanonicalSubsequences; symbolic shape of the distance formula",
+         "Exact decisions that every k-mer of every upper-cased sequence is hashed from a reset hasher and pushed, the sketch is sorted on every exit, Sequences = New + Add, Distance = FromJaccard(Jaccard), Seed is never reassigned, FromJaccard is 1 at 0 and min(., 1) of the documented formula. Does not decide bottom-n content or the estimator (dependency).", "4/C17"),
+ "C19": ("points-to/effect analysis from PreOrder/PostOrder/traverse; call-graph cycle search; stale-element-pointer rule; captured-state rule; guards of the two yield sites and shape of the push/advance step",
+         "Exact decisions that traversal never writes the tree, does not recurse, uses no element pointer across an append, shares no state between runs, yields pre-order at child index 0 and post-order at child index len(Children), pushes Children[i] and advances i by one. Does not decide that these steps compose to the classic order as a sequence equality.", "4/C19"),
+ "C20": ("error-class dataflow and return-operand rule for ReadNCBI; linear-inequality prover for its index sites; provenance of the stored cell; points-to purity/freshness of Symmetrical; guard of the conflict panic; shape of GoString's sort comparator and line format",
+         "Exact decisions of 'error never with a partial matrix', all index guards (wrong value count, multi-character label), '*' = Gap, cell = ParseFloat of the matching column, Symmetrical pure/fresh/mirror/conflict edge, GoString sorted by key bytes with exact line format. Does not decide set equality of parsed pairs or float formatting.", "4/C20"),
  "C01": ("codec-agreement rules on SSA: single source of bytes (MarshalText via Write), constant formats with operand provenance, symbolic wrap-width agreement, CR/LF comparison groups, pass-through must-yield on go/cfg",
          "Exact decisions of the structural clauses 'MarshalText = Write', 'name line per record', 'lines of at most 80', 'CR wherever LF', 'every record handed on'. Does not decide decode(encode(x)) = x.", "4/C01"),
  "C02": ("typestate (Scanner Buffer before use), constant format with operand provenance, dominance of the accepting return by the rejection guards, taint of bufio buffer views",
